@@ -307,13 +307,13 @@ def history_aba(r, prop):
 
 
 DIRECTED = ["slot:body", "slot:const", "slot:dflt", "slot:kwd", "slot:nested", "slot:setc", "slot:tup", "var", "var_mutate",
-            "addref", "delref", "init_helper", "twin_sm", "late_var", "late_var_mutate", "factory", "lambda", "tuple_mutate", "shadow_builtin"]
+            "addref", "delref", "init_helper", "init_helper_modcall", "twin_sm", "late_var", "late_var_mutate", "factory", "lambda", "tuple_mutate", "shadow_builtin"]
 
 
 def history_directed(r, prop, kind, inproc):
     """One edit of a given kind to something m1 (transitively) uses, delivered in-process or by a new process,
     with m1 asked before and after: every kind of edit is exercised in every run, not only when the dice say so."""
-    feat = {"init_helper": {"init_p": 1.0}, "twin_sm": {"twins_p": 1.0}, "late_var": {"late_p": 1.0},
+    feat = {"init_helper": {"init_p": 1.0}, "init_helper_modcall": {"init_p": 1.0}, "twin_sm": {"twins_p": 1.0}, "late_var": {"late_p": 1.0},
             "late_var_mutate": {"late_p": 1.0}, "factory": {"factory_p": 1.0}, "lambda": {"lambdas_p": 1.0}, "tuple_mutate": {"tuple_p": 1.0}}.get(kind, {})
     feat = dict(feat, shapes_p=0.6)
     for _ in range(200):
@@ -328,6 +328,14 @@ def history_directed(r, prop, kind, inproc):
             ed = {"edit": "slot", "name": n["name"], "slot": kind[5:]}
         elif kind == "init_helper":
             c = [n for n in fns if n.get("where") == "init"]
+            if c:
+                n = c[0]
+                n["slots"][r.choice(vprogs.SLOTS)] += 1
+                ed = {"edit": "init_helper", "name": n["name"]}
+        elif kind == "init_helper_modcall":
+            # ... a helper in the package module that calls a function of the module through the imported module name: re-defined
+            # on its own it is the trigger of the open finding C13-redefinition-compiled-out-of-module-context
+            c = [n for n in fns if n.get("where") == "init" and any(q.get("form") == "initmod" for q in n["refs"])]
             if c:
                 n = c[0]
                 n["slots"][r.choice(vprogs.SLOTS)] += 1
